@@ -30,12 +30,14 @@
 (*                                                                         *)
 (* Bounds: MaxC constructs (XML declaration, DOCTYPE, comment, PI, CDATA   *)
 (* section, character data, element, attribute: one each), MaxV            *)
-(* variations (optional white space, further body pieces, optional parts   *)
-(* of declarations), MaxP pieces per body.                                 *)
+(* variations (every choice other than the default spelling: optional      *)
+(* white space, a body that is not one plain piece, optional parts of      *)
+(* declarations, items of the internal subset), MaxT constructs plus       *)
+(* variations, MaxP pieces per body.                                       *)
 (***************************************************************************)
 EXTENDS Integers, Sequences, FiniteSets, TLC, Json, CSV, IOUtils
 
-CONSTANTS MaxC, MaxV, MaxP
+CONSTANTS MaxC, MaxV, MaxT, MaxP
 
 A(x)     == [t |-> "a", v |-> x, k |-> 0]
 Ak(x, n) == [t |-> "a", v |-> x, k |-> n]
@@ -48,7 +50,9 @@ Other(q) == IF q = "dq" THEN "sq" ELSE "dq"
 
 (*************************** body pieces and their shapes *******************)
 \* attribute values [10]: no '<', no '&' (entity-free values), not the delimiting quote
-AvCommon == {"v.text", "v.gt", "v.sp", "v.tab", "v.nl", "v.cr", "v.eq", "v.slashgt", "v.cdend"}
+\* ("]]>" is allowed in an attribute value by [10], but encoding/xml, which the statement names as the reference, rejects it
+\* there: not generated)
+AvCommon == {"v.text", "v.gt", "v.sp", "v.tab", "v.nl", "v.cr", "v.eq", "v.slashgt"}
 Pieces(ctx) ==
     CASE ctx = "av.dq" -> AvCommon \cup {"v.sq", "v.qgt"}
       [] ctx = "av.sq" -> AvCommon \cup {"v.dq", "v.qgt"}
@@ -63,6 +67,8 @@ Pieces(ctx) ==
       [] ctx = "dc"    -> {"dc.text", "dc.gt", "dc.dq", "dc.sq", "dc.lb", "dc.rb"}         \* comment in the internal subset
 Ctxs == {"av.dq", "av.sq", "pv.dq", "pv.sq", "cmt", "cd", "xl.dq", "xl.sq", "el.dq", "el.sq", "dc"}
 AllPieces == UNION {Pieces(c) : c \in Ctxs}
+\* the plain piece of every context: a body consisting of just this piece is the default spelling (costs no variation)
+Plain == {"v.text", "c.text", "cd.text", "xl.dq.text", "xl.sq.text", "el.dq.text", "el.sq.text", "dc.text"}
 
 \* the characters of a piece that a lexical side condition of the grammar talks about ("x": any other)
 Shape(a) ==
@@ -107,7 +113,7 @@ Prods(it, f, i, ne) ==
       [] x = "prolog"   -> {P(<<N("xdeclopt"), N("miscs"), N("dtopt")>>, 0, 0)}                            \* [22]
       [] x = "xdeclopt" -> {P(<<>>, 0, 0)} \cup                                                            \* [23] [24]
                            {P(<<A("pi.open"), A("xd.xml"), A("s"), A("xd.version"), N("eq"), A(q), A("xd.v10"), A(q),
-                                N("encopt"), N("sdopt"), N("sopt"), A("pi.close")>>, 1, 0) : q \in Quotes}
+                                N("encopt"), N("sdopt"), N("sopt"), A("pi.close")>>, 1, IF q = "dq" THEN 0 ELSE 1) : q \in Quotes}
       [] x = "encopt"   -> {P(<<>>, 0, 0)} \cup {P(r, 0, 1) : r \in QuotedFixed("xd.encoding", "xd.utf8")}      \* [80]
       [] x = "sdopt"    -> {P(<<>>, 0, 0)} \cup {P(r, 0, 1) : r \in QuotedFixed("xd.standalone", "xd.yesno")}   \* [32]
       [] x = "eq"       -> {P(<<A("eq")>>, 0, 0), P(<<A("s"), A("eq")>>, 0, 1), P(<<A("eq"), A("s")>>, 0, 1),   \* [25]
@@ -122,18 +128,18 @@ Prods(it, f, i, ne) ==
       [] x = "cdata"    -> {P(<<A("cd.open"), N("body.cd"), A("cd.close")>>, 0, 0)}                        \* [18]-[21]
       [] x = "pi"       -> {P(<<A("pi.open"), A("pitarget"), Nk("pattrs", 1), N("sopt"), A("pi.close")>>, 0, 0)}   \* [16]
       [] x = "pattrs"   -> {P(<<>>, 0, 0)} \cup                                                            \* pseudo-attributes
-                           {P(<<A("s"), Ak("aname", k), N("eq"), A(q), N("body.pv." \o q), A(q), Nk("pattrs", k + 1)>>, 1, 0) : q \in Quotes}
+                           {P(<<A("s"), Ak("aname", k), N("eq"), A(q), N("body.pv." \o q), A(q), Nk("pattrs", k + 1)>>, 1, IF q = "dq" THEN 0 ELSE 1) : q \in Quotes}
       \* doctypedecl [28]
       [] x = "doctype"  -> {P(<<A("dt.open"), A("dt.s"), A("dt.name"), N("extid"), N("dtsopt"), N("subsetopt"), A("dt.close")>>, 0, 0)}
       [] x = "dtsopt"   -> {P(<<>>, 0, 0), P(<<A("dt.s")>>, 0, 1)}
       [] x = "extid"    -> {P(<<>>, 0, 0)} \cup                                                            \* [75]
-                           {P(<<A("dt.s"), A("dt.SYSTEM"), A("dt.s"), A("dt." \o q), N("body.xl." \o q), A("dt." \o q)>>, 0, 0) : q \in Quotes} \cup
+                           {P(<<A("dt.s"), A("dt.SYSTEM"), A("dt.s"), A("dt." \o q), N("body.xl." \o q), A("dt." \o q)>>, 0, 1) : q \in Quotes} \cup
                            {P(<<A("dt.s"), A("dt.PUBLIC"), A("dt.s"), A("dt." \o q[1]), A("dt.pubid"), A("dt." \o q[1]), A("dt.s"),
                                 A("dt." \o q[2]), N("body.xl." \o q[2]), A("dt." \o q[2])>>, 0, 1) : q \in Quotes \X Quotes}
       [] x = "subsetopt" -> {P(<<>>, 0, 0), P(<<A("dt.lb"), Nk("subset", 0), A("dt.rb"), N("dtsopt")>>, 0, 0)}
       [] x = "subset"   -> {P(<<>>, 0, 0)} \cup                                                            \* [28b]
                            (IF k >= MaxP THEN {} ELSE
-                            LET vv == IF k >= 1 THEN 1 ELSE 0 IN
+                            LET vv == 1 IN
                             {P(<<A("ds.entopen"), A("dt." \o q), N("body.el." \o q), A("dt." \o q), A("ds.declclose"), Nk("subset", k + 1)>>, 0, vv) : q \in Quotes} \cup
                             {P(<<A("dc.open"), N("body.dc"), A("dc.close"), Nk("subset", k + 1)>>, 0, vv),
                              P(<<A("ds.s"), Nk("subset", k + 1)>>, 0, vv),
@@ -152,9 +158,9 @@ Prods(it, f, i, ne) ==
       [] x = "cmark"    -> {P(<<N("element")>>, 0, 0), P(<<N("cdata")>>, 1, 0), P(<<N("pi")>>, 1, 0), P(<<N("comment")>>, 1, 0)}
       \* bodies: pieces one at a time; k pieces placed so far; the first piece is free, further ones are variations
       [] BodyNT(x)      -> LET ctx == CtxOf(x) IN
-                           (IF CloseOk(ctx, f, i, k) THEN {P(<<>>, 0, 0)} ELSE {}) \cup
+                           (IF CloseOk(ctx, f, i, k) THEN {P(<<>>, 0, IF k = 0 THEN 1 ELSE 0)} ELSE {}) \cup
                            (IF k >= MaxP THEN {} ELSE
-                            {P(<<A(p), Nk(x, k + 1)>>, 0, IF k >= 1 THEN 1 ELSE 0) : p \in {pp \in Pieces(ctx) : PieceOk(ctx, f, i, k, pp)}})
+                            {P(<<A(p), Nk(x, k + 1)>>, 0, IF k = 0 /\ p \in Plain THEN 0 ELSE 1) : p \in {pp \in Pieces(ctx) : PieceOk(ctx, f, i, k, pp)}})
 
 VARIABLES form, nc, nv, ne
 vars == <<form, nc, nv, ne>>
@@ -228,6 +234,7 @@ Next ==
               f2 == SubSeq(form, 1, i - 1) \o p.rhs \o SubSeq(form, i + 1, Len(form)) IN
           /\ p.c <= nc - (IF RootPending(form) /\ ~isRoot THEN 1 ELSE 0)     \* one construct is reserved for the root element
           /\ p.v <= nv
+          /\ (MaxC - nc) + (MaxV - nv) + p.c + p.v <= MaxT
           /\ form' = f2 /\ nc' = nc - p.c /\ nv' = nv - p.v
           /\ ne' = (IF form[i].v \in {"root", "element"} THEN ne + 1 ELSE ne)
           /\ (~HasNT(f2) => Assert(SepOk(f2), "adjacent character data") /\ Write(f2, MaxC - nc', MaxV - nv'))
